@@ -497,7 +497,24 @@ def vspace(ctx, world):
             ctx.fail("A4.vspace", "iscomplex is True", "ComplexArrayVSpace.iscomplex", loc_of(m, v), "iscomplex is not the constant True", "elementwise_grad / holomorphic_grad checks on complex outputs")
 
     def calls(fn):
+        # the functions the evaluated method body calls (local aliases, helpers and methods of the class inlined)
         out = set()
+        try:
+            from ..kfun import eval_function as _evf
+            from ..tutil import expand as _exp
+
+            cls_name = getattr(getattr(fn, "_parent", None), "name", None)
+            if cls_name is not None:
+                r_, sy_, m_, fn_, sc_ = _evf(world, m.name, f"{cls_name}.{fn.name}")
+                for t in walk(_exp(world.ev, r_, ())) if r_ is not None else []:
+                    if t.op == "call":
+                        rf, _ = resolve_callee(world.ev, t)
+                        if rf is not None:
+                            out.add(rf.qual.rsplit(".", 1)[-1])
+                        elif t.fn.op == "attr":
+                            out.add(t.fn.name)
+        except AnalysisError:
+            pass
         for n in ast.walk(fn):
             if isinstance(n, ast.Call):
                 r = world.repo.resolve_expr(m, n.func)
